@@ -98,7 +98,6 @@ Utf16Seq(s) == IF s = <<>> THEN <<>> ELSE Utf16(Head(s)) \o Utf16Seq(Tail(s))
 (*  tl   units in the current token (saturating at 2; char literals)       *)
 (*  ntok number of completed literal tokens (saturating at 1 unless keep)  *)
 (*  pre  code units seen while keep (prefix check of the decoders)         *)
-(*  cc   the unit just consumed turned out to be (part of) code            *)
 (*  h1,h2  rolling hashes of the lexical skeleton; tk pending token kind   *)
 (*  why  reason of the error mode                                          *)
 
@@ -106,10 +105,10 @@ S0(keep) ==
   [m |-> "code", q |-> 0, sk |-> "", ret |-> "", k |-> "", n |-> 0, v |-> 0, tq |-> 0,
    dl |-> <<>>, stk |-> <<>>, bd |-> 0, pfx |-> <<>>, sig |-> 0, bol |-> TRUE,
    u1 |-> "", un |-> 0, uv |-> 0, bs |-> FALSE,
-   keep |-> keep, acc |-> <<>>, tl |-> 0, ntok |-> 0, pre |-> <<>>, cc |-> FALSE,
+   keep |-> keep, acc |-> <<>>, tl |-> 0, ntok |-> 0, pre |-> <<>>,
    h1 |-> 7, h2 |-> 11, tk |-> 0, why |-> ""]
 
-Err(s, why) == [s EXCEPT !.m = "err", !.why = why, !.cc = FALSE]
+Err(s, why) == [s EXCEPT !.m = "err", !.why = why]
 
 (* skeleton tokens: a code unit is itself; literals and comments are one token each;   *)
 (* consecutive comments (and the white space between them) merge into one token.       *)
@@ -127,13 +126,14 @@ OutSeq(s, us) == IF us = <<>> THEN s ELSE OutSeq(Out(s, Head(us)), Tail(us))
 
 \* an ordinary code unit; isPfx tells which units may form a literal prefix
 CodeUnit(s, c, isPfx) ==
-  LET w == White(c)
-      s1 == [s EXCEPT !.cc = ~w,
-                      !.pfx = IF isPfx THEN (IF Len(@) < 4 THEN Append(@, c) ELSE @) ELSE <<>>,
-                      !.sig = IF w THEN @ ELSE c,
-                      !.pre = IF s.keep /\ ~w THEN Append(@, c) ELSE @,
-                      !.bol = (c = LF) \/ (@ /\ w)]
-  IN IF w THEN s1 ELSE Mix(s1, c)
+  IF c = 32 \/ (c >= 9 /\ c <= 13) THEN        \* white space: not part of the skeleton
+      (IF s.pfx = <<>> /\ (s.bol \/ c # LF) THEN s
+       ELSE [s EXCEPT !.pfx = <<>>, !.bol = (c = LF) \/ @])
+  ELSE [s EXCEPT !.pfx = IF isPfx THEN (IF Len(@) < 4 THEN Append(@, c) ELSE @) ELSE <<>>,
+                 !.sig = c,
+                 !.pre = IF s.keep THEN Append(@, c) ELSE @,
+                 !.bol = FALSE,
+                 !.h1 = (@ * 31 + c) % M1, !.h2 = (@ * 37 + c + 1) % M2, !.tk = c]
 
 OpenLit(s, mode, q, sk) ==
   [s EXCEPT !.m = mode, !.q = q, !.sk = sk, !.tl = 0, !.tq = 0, !.pfx = <<>>, !.bol = FALSE]
@@ -182,9 +182,7 @@ CppStep(s, c) ==
     [] s.m = "slash" ->
         (IF c = SLASH THEN OpenComment(s, "lc")
          ELSE IF c = STAR THEN OpenComment(s, "bc")
-         ELSE LET s1 == CodeUnit([s EXCEPT !.m = "code"], SLASH, FALSE)
-                  s2 == CppStep(s1, c)
-              IN [s2 EXCEPT !.cc = TRUE])
+         ELSE CppStep(CodeUnit([s EXCEPT !.m = "code"], SLASH, FALSE), c))
     [] s.m = "lc" -> (IF c = LF THEN [s EXCEPT !.m = "code", !.bol = TRUE]
                       ELSE IF c = BSL THEN [s EXCEPT !.m = "lcb"] ELSE s)
     [] s.m = "lcb" -> (IF c = LF THEN [s EXCEPT !.m = "lc"]          \* spliced: the comment goes on
@@ -255,7 +253,7 @@ GoStep(s, c) ==
     [] s.m = "slash" ->
         (IF c = SLASH THEN OpenComment(s, "lc")
          ELSE IF c = STAR THEN OpenComment(s, "bc")
-         ELSE LET s2 == GoStep(CodeUnit([s EXCEPT !.m = "code"], SLASH, FALSE), c) IN [s2 EXCEPT !.cc = TRUE])
+         ELSE GoStep(CodeUnit([s EXCEPT !.m = "code"], SLASH, FALSE), c))
     [] s.m = "lc" -> (IF c = LF THEN [s EXCEPT !.m = "code", !.bol = TRUE] ELSE s)
     [] s.m = "bc" -> (IF c = STAR THEN [s EXCEPT !.m = "bcs"] ELSE s)
     [] s.m = "bcs" -> (IF c = SLASH THEN [s EXCEPT !.m = "code"] ELSE IF c = STAR THEN s ELSE [s EXCEPT !.m = "bc"])
@@ -321,7 +319,7 @@ CsStep(s, c) ==
     [] s.m = "slash" ->
         (IF c = SLASH THEN OpenComment(s, "lc")
          ELSE IF c = STAR THEN OpenComment(s, "bc")
-         ELSE LET s2 == CsStep(CodeUnit([s EXCEPT !.m = "code"], SLASH, FALSE), c) IN [s2 EXCEPT !.cc = TRUE])
+         ELSE CsStep(CodeUnit([s EXCEPT !.m = "code"], SLASH, FALSE), c))
     [] s.m = "lc" -> (IF CsNewline(c) THEN [s EXCEPT !.m = "code", !.bol = TRUE] ELSE s)
     [] s.m = "bc" -> (IF c = STAR THEN [s EXCEPT !.m = "bcs"] ELSE s)
     [] s.m = "bcs" -> (IF c = SLASH THEN [s EXCEPT !.m = "code"] ELSE IF c = STAR THEN s ELSE [s EXCEPT !.m = "bc"])
@@ -393,7 +391,7 @@ TsStep(s, c) ==
         (IF c = SLASH THEN OpenComment(s, "lc")
          ELSE IF c = STAR THEN OpenComment(s, "bc")
          ELSE IF JsRegexMayFollow(s.sig) THEN TsStep(OpenLit(s, "rx", SLASH, "rx"), c)
-         ELSE LET s2 == TsStep(CodeUnit([s EXCEPT !.m = "code"], SLASH, FALSE), c) IN [s2 EXCEPT !.cc = TRUE])
+         ELSE TsStep(CodeUnit([s EXCEPT !.m = "code"], SLASH, FALSE), c))
     [] s.m = "lc" -> (IF JsLineTerm(c) THEN [s EXCEPT !.m = "code", !.bol = TRUE] ELSE s)
     [] s.m = "bc" -> (IF c = STAR THEN [s EXCEPT !.m = "bcs"] ELSE s)
     [] s.m = "bcs" -> (IF c = SLASH THEN [s EXCEPT !.m = "code"] ELSE IF c = STAR THEN s ELSE [s EXCEPT !.m = "bc"])
@@ -463,7 +461,7 @@ Java2(s, c) ==
     [] s.m = "slash" ->
         (IF c = SLASH THEN OpenComment(s, "lc")
          ELSE IF c = STAR THEN OpenComment(s, "bc")
-         ELSE LET s2 == Java2(CodeUnit([s EXCEPT !.m = "code"], SLASH, FALSE), c) IN [s2 EXCEPT !.cc = TRUE])
+         ELSE Java2(CodeUnit([s EXCEPT !.m = "code"], SLASH, FALSE), c))
     [] s.m = "lc" -> (IF c = LF \/ c = CR THEN [s EXCEPT !.m = "code", !.bol = TRUE] ELSE s)
     [] s.m = "bc" -> (IF c = STAR THEN [s EXCEPT !.m = "bcs"] ELSE s)
     [] s.m = "bcs" -> (IF c = SLASH THEN [s EXCEPT !.m = "code"] ELSE IF c = STAR THEN s ELSE [s EXCEPT !.m = "bc"])
@@ -590,15 +588,14 @@ PyStep(s, c) ==
 -----------------------------------------------------------------------------
 (* The machines together *)
 
-Step(L, s0, c) ==
-  IF s0.m = "err" THEN s0
-  ELSE LET s == [s0 EXCEPT !.cc = FALSE] IN
-       CASE L = "py" -> PyStep(s, c)
-         [] L = "cpp" -> CppStep(s, c)
-         [] L = "cs" -> CsStep(s, c)
-         [] L = "java" -> JavaStep(s, c)
-         [] L = "ts" -> TsStep(s, c)
-         [] L = "go" -> GoStep(s, c)
+Step(L, s, c) ==
+  IF s.m = "err" THEN s
+  ELSE CASE L = "py" -> PyStep(s, c)
+    [] L = "cpp" -> CppStep(s, c)
+    [] L = "cs" -> CsStep(s, c)
+    [] L = "java" -> JavaStep(s, c)
+    [] L = "ts" -> TsStep(s, c)
+    [] L = "go" -> GoStep(s, c)
 
 (* End of input: pending one-unit look-aheads are resolved, a line comment may end the file. *)
 FinishMode(L, s) ==
